@@ -2,10 +2,19 @@
     stay Coq datatypes; no Extract Constant). Run coqc from the ocaml/ directory. *)
 Require Extraction.
 Require Import ExtrOcamlBasic.
-From IAVL Require Import Bytes Varint Sha256 Tree MTree.
+From IAVL Require Import Bytes Varint Sha256 Tree VMap MTree KV Iter ExportImport Codec.
 
 Definition m_step := MTree.step sha256.
 Definition m_init := MTree.init_state.
 
+Definition imp_run_sha := ExportImport.imp_run sha256.
+Definition cimp_run_sha := ExportImport.cimp_run sha256.
+
 Extraction "model.ml" m_step m_init bcmp sha256 uvarint_enc uvarint_dec varint_enc varint_dec
-  bytes_enc bytes_dec be_enc be_dec.
+  bytes_enc bytes_dec be_enc be_dec
+  KV.kv_step KV.mem_step KV.ldb_step KV.prefix_step KV.kv_set
+  Iter.iter_tree Iter.it_collect_tree Iter.fast_collect Iter.uf_collect
+  ExportImport.export imp_run_sha cimp_run_sha ExportImport.compress ExportImport.decompress
+  Codec.decode_node Codec.decode_legacy_node Codec.decode_fast_node Codec.encode_node Codec.encode_fast_node
+  Codec.node_key_bytes Codec.classify_root Codec.fast_storage_label Codec.db_node_key Codec.db_fast_key Codec.storage_version_key
+  Codec.root_ref_value.
